@@ -118,11 +118,11 @@ theorem mainOK_step {s : State σ κ} (op : Op σ) (hop : GenesisOK op) (h : Mai
     · rw [hf.1]; exact h
     · rw [he]; exact h
   · intro s f t e amt h
-    rcases execTransfer_cases c s f t e amt with hf | ⟨_, _, _, he⟩
+    rcases execTransfer_cases c s f t e amt with hf | ⟨_, _, _, _, he⟩
     · rw [hf.1]; exact h
     · rw [he]; exact h
   · intro s f t e amt h
-    rcases execTransferFrozen_cases c s f t e amt with hf | ⟨_, _, _, he⟩
+    rcases execTransferFrozen_cases c s f t e amt with hf | ⟨_, _, _, _, he⟩
     · rw [hf.1]; exact h
     · rw [he]; exact h
   · intro s a e amt _ h
